@@ -364,17 +364,22 @@ func parseRule(c *Check, cone *Cone) {
 	c.Cond(npush == 1 && po.K == "call" && po.V == ssa.Value(parse) && po.Idx == 0, "push-parse-result", "argument of PushMessage in "+fn.Name(), p.InstrPos(push), "exactly the message parsed from the line is pushed, once", "the value pushed to the reassembler is not the parse result of the received line ("+trimOrg(po.String())+"), or it is pushed more than once")
 	// emptiness test
 	var emptyIf *ssa.If
+	nonEmptySucc := 1
 	allInstrs(fn, func(in ssa.Instruction) {
 		iff, ok := in.(*ssa.If)
 		if !ok {
 			return
 		}
 		b, ok := iff.Cond.(*ssa.BinOp)
-		if !ok || b.Op != token.EQL {
+		if !ok || (b.Op != token.EQL && b.Op != token.NEQ) {
 			return
 		}
 		if s, ok := constStr(b.Y); ok && s == "" && strip(b.X) == strip(line) {
 			emptyIf = iff
+			nonEmptySucc = 1
+			if b.Op == token.NEQ {
+				nonEmptySucc = 0
+			}
 		}
 	})
 	isPush := func(in ssa.Instruction) bool { return in == ssa.Instruction(push) }
@@ -385,7 +390,7 @@ func parseRule(c *Check, cone *Cone) {
 	skip := searchAvoiding(fn, recvInstr, isRecv, barrier)
 	c.Cond(skip == nil, "parse-or-stop", "paths from the receipt of a line to the next receipt in "+fn.Name(), p.InstrPos(recvInstr), "every path pushes the parsed message, returns, or goes through the test line == \"\"", "a received line can be consumed without being parsed and pushed and without stopping the processor (a path skips it before the emptiness test or around the push): the record is lost silently")
 	if emptyIf != nil {
-		skip2 := blockReachesInstr(emptyIf.Block().Succs[1], isRecv, isPush)
+		skip2 := blockReachesInstr(emptyIf.Block().Succs[nonEmptySucc], isRecv, isPush)
 		c.Cond(skip2 == nil, "parse-or-stop", "non-empty lines in "+fn.Name(), p.InstrPos(emptyIf), "after line != \"\" every path pushes or returns", "a non-empty line can be dropped after the emptiness test")
 	}
 	// parse error path
